@@ -49,7 +49,11 @@ func Build(verifDir string) (string, error) {
 		}
 		return nil
 	}
-	if err := run("", "rsync", "-a", "--exclude", ".git", repoDir+"/", filepath.Join(scratch, "repo")+"/"); err != nil {
+	repo := repoDir
+	if v := os.Getenv("VERIF_REPO"); v != "" {
+		repo = v // mutation campaigns on a copy
+	}
+	if err := run("", "rsync", "-a", "--exclude", ".git", repo+"/", filepath.Join(scratch, "repo")+"/"); err != nil {
 		return scratch, err
 	}
 	hook := filepath.Join(scratch, "repo", "verifhook")
@@ -85,7 +89,7 @@ func Build(verifDir string) (string, error) {
 	}
 	gomod := "module verifdriver\n\ngo 1.17\n\nrequire github.com/makiuchi-d/gozxing v0.0.0\n\nreplace github.com/makiuchi-d/gozxing => ../repo\n"
 	ioutil.WriteFile(filepath.Join(drv, "go.mod"), []byte(gomod), 0644)
-	if b, err := ioutil.ReadFile(filepath.Join(repoDir, "go.sum")); err == nil {
+	if b, err := ioutil.ReadFile(filepath.Join(repo, "go.sum")); err == nil {
 		ioutil.WriteFile(filepath.Join(drv, "go.sum"), b, 0644)
 	}
 	if err := run(drv, "go", "build", "-race", "-tags", "verif", "-trimpath", "-o", filepath.Join(scratch, "driver.bin"), "."); err != nil {
@@ -440,7 +444,7 @@ func judge(o *simOutcome, syncFree bool) (vs []verdict, harness string) {
 
 // ---------------------------------------------------------------- generation
 
-var opKinds = []string{"qr", "dm", "ean13", "ean8", "upca", "upce", "code39", "code93", "code128", "itf", "codabar", "qrmulti", "aztec", "rs", "bin", "eci", "eanext", "qrdmg", "dmdmg", "aztecgen", "qreci"}
+var opKinds = []string{"qr", "dm", "ean13", "ean8", "upca", "upce", "code39", "code93", "code128", "itf", "codabar", "qrmulti", "aztec", "rs", "bin", "eci", "eanext", "qrdmg", "dmdmg", "aztecgen", "qreci", "faint"}
 
 func gen18(c *kit.Ctx, numSites int, syncFree bool) *Trace18 {
 	r := c.RNG
